@@ -503,3 +503,149 @@ Proof.
   split; [vm_compute; reflexivity|]. split; [vm_compute; reflexivity|].
   split; eexists; vm_compute; reflexivity.
 Qed.
+
+(* ==================================================================================================================
+   ---- 9. ids OUTSIDE the plain URL grammar (builder b47) ----
+   Sections 5 / 5b are about [ideq] = IRI.Equals(., ., false) as modelled over the plain URL grammar (Model/IriEq.v,
+   Model/Url.v): an id with a percent-escape, userinfo, an IP literal or a byte >= 0x80 is not in iri_dom, the plain
+   model compares it by the string fast path only (so it is not what the code does there), and the theorems kept
+   transitivity as the hypothesis trans_on for such ids.
+   Model/RecipU.v instantiates THE SAME definitions (recipients, dedup, remove_loop, recipients_list: everything above
+   is parametric in the comparison) with [idequ] = IRI.Equals(., ., false) over the wide models of builders b33 / b44
+   (Model/IriEqU.v: net/url on ALL byte strings as Model/UrlU.v, iri.go equalFold as Model/Fold.v), and C14 proves
+   that comparison an equivalence relation on iri_dom_u - ANY byte string that url.Parse gives a scheme and a host,
+   query literal in one letter case (C14_equivalence_u).  So for every value whose addressee ids lie in iri_dom_u the
+   full statements hold with NO hypothesis on the comparison; the correspondence check runs recipients_u against the
+   real code on ids outside the plain grammar (harness/c10u.go, wideids.go).  Nothing above is changed or weakened. *)
+From AP.Model Require Import Fold UrlU IriEqU RecipU.
+From AP.Proofs Require Import IriUP RecipUP.
+
+(* the older hypothesis is a theorem on the wide domain *)
+Theorem C10_trans_on_domain_u : forall l, forallb iri_dom_u l = true -> trans_on idequ l = true.
+Proof. exact trans_on_dom_u. Qed.
+
+Theorem C10_code_equivalence_u :
+  (forall a, idequ a a = true) /\ (forall a b, idequ a b = idequ b a) /\
+  (forall a b c, iri_dom_u a = true -> iri_dom_u b = true -> iri_dom_u c = true ->
+                 idequ a b = true -> idequ b c = true -> idequ a c = true) /\
+  (forall a b, iri_dom_u a = true -> iri_dom_u b = true -> idequ a b = nf_u_eqb (nf_u false a) (nf_u false b)).
+Proof. exact (conj idequ_refl (conj idequ_sym (conj idequ_trans_dom idequ_nf))). Qed.
+
+(* ItemCollectionDeduplication itself *)
+Theorem C10_dedup_u : forall cols, forallb iri_dom_u (scan_order cols) = true ->
+  dedup_u cols = Ok (first_mentions idequ (scan_order cols), keep_first_lists idequ [] cols).
+Proof. exact dedup_u_refines_dom. Qed.
+
+(* Recipients(): the returned list and the value afterwards *)
+Theorem C10_code_result_u : forall k fs fs1,
+  has_recipients k = true -> recip_pre idequ k fs = Ok fs1 ->
+  forallb iri_dom_u (scan_order (scan_lists k fs1)) = true ->
+  recipients_u (IObj true k fs)
+  = Ok (iri_items (first_mentions idequ (scan_order (scan_lists k fs1))),
+        IObj true k (write_back (keep_first_lists idequ [] (scan_lists k fs1)) fs1)).
+Proof. exact recipients_u_refines_dom. Qed.
+
+Theorem C10_code_value_u : forall k fs fs1 r fs',
+  has_recipients k = true -> recip_pre idequ k fs = Ok fs1 ->
+  forallb iri_dom_u (scan_order (scan_lists k fs1)) = true ->
+  recipients_u (IObj true k fs) = Ok (r, IObj true k fs') ->
+  addressing fs' = keep_first_lists idequ [] (addressing fs1) /\
+  (forall f, is_addr4 f = false -> getf f fs' = getf f fs1) /\
+  (forall f, is_addr5 f = false -> getf f fs' = getf f fs).
+Proof. exact recipients_u_addressing_dom. Qed.
+
+(* in the words of the property: nobody else and in order of first mention, each distinct addressee exactly once,
+   "distinct" = different normal form (host with port, cleaned decoded path, decoded query parameters; scheme,
+   fragment and userinfo ignored) *)
+Theorem C10_code_meaning_u : forall ks,
+  forallb iri_dom_u ks = true ->
+  subseq (first_mentions idequ ks) ks /\
+  (forall k, In k ks -> length (filter (idequ k) (first_mentions idequ ks)) = 1) /\
+  (forall a b, In a ks -> In b ks -> (idequ a b = true <-> nf_u false a = nf_u false b)).
+Proof. exact first_mentions_meaning_dom_u. Qed.
+
+(* Block: the blocked object is addressed nowhere afterwards - any ids *)
+Theorem C10_block_u : forall o fs r k' fs',
+  bytes_eqb (get_str F_Type fs) block_type = true ->
+  is_nil (get_item F_Object fs) = false -> get_link (get_item F_Object fs) = Ok o ->
+  recipients_u (IObj true KActivity fs) = Ok (r, IObj true k' fs') ->
+  forall c, In c (five_lists fs') -> list_clear idequ o c.
+Proof. exact block_removed_u. Qed.
+
+(* ItemCollection.Recipients() *)
+Theorem C10_list_result_u : forall l,
+  forallb flat_member l = true -> forallb iri_dom_u (list_mentions l) = true ->
+  recipients_list_u (Some l)
+  = Ok (iri_items (first_mentions idequ (list_mentions l)), Some (map (member_after idequ) l)).
+Proof. exact recipients_list_u_refines_dom. Qed.
+Theorem C10_list_meaning_u : forall l,
+  forallb iri_dom_u (list_mentions l) = true ->
+  subseq (first_mentions idequ (list_mentions l)) (list_mentions l) /\
+  (forall k, In k (list_mentions l) -> length (filter (idequ k) (first_mentions idequ (list_mentions l))) = 1) /\
+  (forall a b, In a (list_mentions l) -> In b (list_mentions l) -> (idequ a b = true <-> nf_u false a = nf_u false b)).
+Proof. exact (fun l => first_mentions_meaning_dom_u (list_mentions l)). Qed.
+Theorem C10_list_no_panic_u : forall i,
+  forallb iri_dom_u (deep_mentions_list (match i with Some l => l | None => [] end)) = true ->
+  exists r l', recipients_list_u i = Ok (r, l').
+Proof. exact recipients_list_u_total_dom. Qed.
+
+(* the methods as the source says them now (scan order, write-back, Block clause, the list method's callback) are
+   the wide model's too: the table ties are generic in the comparison *)
+Theorem C10_recipients_gen_u : forall x, recipients_gen idequ x = recipients_u x.
+Proof. exact (C10_recipients_gen idequ). Qed.
+Theorem C10_list_gen_u : forall i, recipients_list_gen idequ i = recipients_list_u i.
+Proof. exact (C10_list_gen idequ). Qed.
+
+(* the wide model EXTENDS the plain one: on ids of iri_dom the comparisons agree (C14_u_agrees_plain), the
+   de-duplication looks at the comparison on the ids that occur only, so section 5b and this section speak of ONE
+   function there *)
+Theorem C10_u_conservative : forall a b, iri_dom a = true -> iri_dom b = true ->
+  iri_dom_u a = true /\ iri_dom_u b = true /\ idequ a b = ideq a b.
+Proof. exact (fun a b Da Db => conj (iri_dom_u_of_plain a Da) (conj (iri_dom_u_of_plain b Db) (idequ_plain a b Da Db))). Qed.
+Theorem C10_dedup_u_agrees_plain : forall cols, forallb iri_dom (scan_order cols) = true -> dedup_u cols = dedup_m cols.
+Proof. exact dedup_u_plain. Qed.
+Theorem C10_u_agrees_plain : forall k fs fs1,
+  recip_pre idequ k fs = Ok fs1 -> recip_pre ideq k fs = Ok fs1 ->
+  forallb iri_dom (scan_order (scan_lists k fs1)) = true ->
+  recipients_u (IObj true k fs) = recipients_m (IObj true k fs).
+Proof. exact recipients_u_plain. Qed.
+
+(* non-vacuity: alice written with an escaped letter, with userinfo, in upper case with a dot segment; bob on an IPv6
+   literal with zone and port in two letter cases, once as an embedded actor; a path that is not valid UTF-8 raw and
+   escaped; look-alikes that are OTHER addressees (escaped percent sign, another port).  None of the ids but the
+   public collection is in the plain domain; the hypotheses of C10_code_result_u hold; the plain model gives another
+   (wrong) answer on this value *)
+Definition uA1 := IIri false (B "https://example.com/users/%41lice").
+Definition uA2 := IIri false (B "https://bob:pw@EXAMPLE.com/users/./alice/").
+Definition uA3 := IIri false (B "http://example.com/users/%61lice#me").
+Definition uAx := IIri false (B "https://example.com/users/%2541lice").
+Definition uB1 := IIri false (B "http://[fe80::1%25eth0]:8080/inbox").
+Definition uB2 := IObj true KActor [(F_ID, FStr (B "HTTP://[FE80::1%25ETH0]:8080/inbox/")); (F_Type, FStr (B "Person"))].
+Definition uBx := IIri false (B "http://[fe80::1%25eth0]:8081/inbox").
+Definition uC1 := IIri false (hx "68747470733a2f2f6578616d706c652e636f6d2f75736572732f61ff").   (* https://example.com/users/a\xff *)
+Definition uC2 := IIri false (B "https://example.com/users/A%FF").
+Definition ex_fs_u : list (fid * fval) :=
+  [(F_ID, FStr (B "https://example.com/notes/1")); (F_Type, FStr (B "Arrive"));
+   (F_Audience, FItems (Some [Pub; uC2; uBx]));
+   (F_To, FItems (Some [uA1; INil; uA2; uAx; uB2]));
+   (F_CC, FItems (Some [uB1; uC1; uA3]));
+   (F_Actor, FItem uB2)].
+Example C10_example_u_hypotheses :
+  recip_pre idequ KIntransitive ex_fs_u = Ok ex_fs_u /\
+  forallb iri_dom_u (scan_order (scan_lists KIntransitive ex_fs_u)) = true /\
+  length (scan_order (scan_lists KIntransitive ex_fs_u)) = 11 /\
+  length (filter iri_dom (scan_order (scan_lists KIntransitive ex_fs_u))) = 1.
+Proof. repeat split; vm_compute; reflexivity. Qed.
+Example C10_example_u_result :
+  recipients_u (IObj true KIntransitive ex_fs_u)
+  = Ok (iri_items [B "https://example.com/users/%41lice"; B "https://example.com/users/%2541lice";
+                   B "HTTP://[FE80::1%25ETH0]:8080/inbox/"; hx "68747470733a2f2f6578616d706c652e636f6d2f75736572732f61ff";
+                   B "https://www.w3.org/ns/activitystreams#Public"; B "http://[fe80::1%25eth0]:8081/inbox"],
+        IObj true KIntransitive
+          [(F_ID, FStr (B "https://example.com/notes/1")); (F_Type, FStr (B "Arrive"));
+           (F_Audience, FItems (Some [Pub; uC2; uBx]));
+           (F_To, FItems (Some [uA1; INil; uAx; uB2]));
+           (F_CC, FItems (Some [uC1]));
+           (F_Actor, FItem uB2)]) /\
+  recipients_m (IObj true KIntransitive ex_fs_u) <> recipients_u (IObj true KIntransitive ex_fs_u).
+Proof. split; [vm_compute; reflexivity|vm_compute; discriminate]. Qed.
